@@ -833,6 +833,18 @@ func runTopN(o Opts) error {
 		w.Add(fmt.Sprintf("CTopN %s [] %s\n %s []", topnCoqOrder(order), cq.List(hs), cq.List(dqs)), "direct", n > 1 && len(order) > 0, meta)
 	}
 
+	// ---- (a') deep paging: more matches than collector.PreAllocSizeSkipCap and windows that reach past it
+	nDeep := 2
+	if o.Thorough() {
+		nDeep = 8
+	}
+	for di := 0; di < nDeep; di++ {
+		topnDeepDirect(rng, w, di)
+	}
+	if err := topnDeepEndToEnd(rng, w); err != nil {
+		return err
+	}
+
 	// ---- (b) end to end: TopNSearch against AllMatches on in-memory indexes
 	for ii := 0; ii < nIdx; ii++ {
 		if err := topnEndToEnd(rng, w, ii); err != nil {
@@ -841,6 +853,179 @@ func runTopN(o Opts) error {
 	}
 	topnSharedSortProbe(w)
 	w.Close()
+	return nil
+}
+
+// topnDeepWindows: (size, skip) pairs around a retention bound `cap` and the hit count
+func topnDeepWindows(rng *rand.Rand, cap, cnt int) [][2]int {
+	return [][2]int{{10, cap - 10}, {10, cap - 5}, {10, cap}, {10, cap + 7}, {cap + 1, 0}, {2 * cap, 0}, {cap, 1}, {1, cap},
+		{0, cap + 1}, {5, cnt - 3}, {20, cnt}, {cnt, 0}, {3, cap - 1 - rng.Intn(20)}, {cap + 1 + rng.Intn(300), rng.Intn(5)}, {7, cap + 1 + rng.Intn(150)}}
+}
+
+// topnDeepDirect: 1100-1500 stub hits with heavy ties, the collector driven directly
+func topnDeepDirect(rng *rand.Rand, w *cq.Writer, di int) {
+	cap := collector.PreAllocSizeSkipCap
+	n := cap + 100 + rng.Intn(400)
+	ncols := 2
+	docs := make([]*topnStubDoc, n)
+	perm := rng.Perm(n)
+	for i := range docs {
+		d := &topnStubDoc{number: uint64(i + 1), score: topnScoreAlphabet[rng.Intn(len(topnScoreAlphabet))], dv: map[int][][]byte{},
+			kw: map[int][]string{}, nums: map[int][]float64{}, dates: map[int][]int64{}, tab: make([][]byte, ncols)}
+		if rng.Intn(8) != 0 {
+			d.tab[0] = []byte(topnKwAlphabet[rng.Intn(len(topnKwAlphabet))])
+		}
+		d.tab[1] = []byte(fmt.Sprintf("u%04d", perm[i]))
+		docs[i] = d
+	}
+	order := []topnSortComp{{kind: 2, col: 0, desc: rng.Intn(2) == 0, first: rng.Intn(2) == 0}}
+	switch di % 3 {
+	case 1:
+		order = append(order, topnSortComp{kind: 0, desc: true})
+	case 2:
+		order = append(order, topnSortComp{kind: 2, col: 1, desc: rng.Intn(2) == 0})
+	}
+	docMap := map[uint64]*topnStubDoc{}
+	for _, d := range docs {
+		docMap[d.number] = d
+	}
+	mkOrder := func() search.SortOrder { return topnBuildOrder(order, docMap, topnFieldName) }
+	keys, _ := topnStubRefKeys(order, docs)
+	rr := topnRank(order, keys)
+	numberOf := func(i int) uint64 { return docs[i].number }
+	var dqs, qmeta []string
+	for qi, p := range topnDeepWindows(rng, cap, n) {
+		res, _, panicked, _ := topnRunDirect(docs, mkOrder(), p[0], p[1], nil, false, nil)
+		w.Count("deep:direct-queries", 1)
+		w.OracleEval(1)
+		want := topnSliceOf(rr.order, p[1], p[0])
+		if panicked || !topnSameNumbers(res, want, numberOf) {
+			w.OracleFail("C09-topn-slice", "deep page is not the [from, from+n) slice of the complete ranking",
+				map[string]interface{}{"order": topnOrderString(order), "hits": n, "size": p[0], "skip": p[1], "returned": len(res), "wanted": len(want),
+					"first_returned": topnNumbersOf(res[:topnMinInt(len(res), 5)]), "panicked": panicked})
+		}
+		if di == 0 && qi < 2 { // two deep windows also go to the model
+			dqs = append(dqs, fmt.Sprintf("DQ %s %s None false %s", cq.I(p[0]), cq.I(p[1]), topnCoqObs(res, panicked)))
+			qmeta = append(qmeta, fmt.Sprintf("size=%d skip=%d -> %d hits", p[0], p[1], len(res)))
+		}
+	}
+	// deep search-after chain with a large page under a distinguishing order
+	if rr.distinct {
+		var seen []uint64
+		page := cap + 1
+		res, _, _, _ := topnRunDirect(docs, mkOrder(), page, 0, nil, false, nil)
+		for guard := 0; len(res) > 0 && guard < 4; guard++ {
+			seen = append(seen, topnNumbersOf(res)...)
+			res, _, _, _ = topnRunDirect(docs, mkOrder(), page, 0, res[len(res)-1].sortv, false, nil)
+		}
+		w.OracleEval(1)
+		ok := len(seen) == n
+		for i := 0; ok && i < n; i++ {
+			ok = seen[i] == numberOf(rr.order[i])
+		}
+		if !ok {
+			w.OracleFail("C09-paging-covers", "chained search-after with a page larger than the preallocation cap does not visit every match once in order",
+				map[string]interface{}{"order": topnOrderString(order), "hits": n, "page": page, "visited": len(seen)})
+		}
+	}
+	w.Count("deep:direct-hits", n)
+	if di == 0 {
+		hs := make([]string, len(docs))
+		for i, d := range docs {
+			hs[i] = topnCoqRawHit(d.number, d.score, d.dv, d.tab)
+		}
+		w.Add(fmt.Sprintf("CTopN %s [] %s\n %s []", topnCoqOrder(order), cq.List(hs), cq.List(dqs)), "deep", true,
+			map[string]interface{}{"hits": n, "order": topnOrderString(order), "queries": qmeta})
+	}
+}
+
+func topnMinInt(a, b int) int {
+	if a < b {
+		return a
+	}
+	return b
+}
+
+// topnDeepEndToEnd: an index with more documents than the cap, TopNSearch windows past it
+func topnDeepEndToEnd(rng *rand.Rand, w *cq.Writer) error {
+	cap := collector.PreAllocSizeSkipCap
+	nd := cap + 50 + rng.Intn(150)
+	wr, err := bluge.OpenWriter(bluge.InMemoryOnlyConfig())
+	if err != nil {
+		return err
+	}
+	defer wr.Close()
+	kws := make([]string, nd)
+	batch := bluge.NewBatch()
+	for i := 0; i < nd; i++ {
+		kws[i] = topnKwAlphabet[rng.Intn(len(topnKwAlphabet))]
+		bd := bluge.NewDocument(fmt.Sprintf("d%05d", i))
+		bd.AddField(bluge.NewKeywordField("f0", kws[i]).Sortable())
+		batch.Insert(bd)
+		if i%400 == 399 {
+			if err := wr.Batch(batch); err != nil {
+				return err
+			}
+			batch = bluge.NewBatch()
+		}
+	}
+	if err := wr.Batch(batch); err != nil {
+		return err
+	}
+	rd, err := wr.Reader()
+	if err != nil {
+		return err
+	}
+	defer rd.Close()
+	desc := rng.Intn(2) == 0
+	order := []topnSortComp{{kind: 1, field: 0, desc: desc}}
+	// the complete match list in searcher order
+	it, err := rd.Search(context.Background(), bluge.NewAllMatches(bluge.NewMatchAllQuery()))
+	if err != nil {
+		return err
+	}
+	var numbers []uint64
+	var keys [][]topnRefKey
+	for {
+		m, err := it.Next()
+		if err != nil {
+			return err
+		}
+		if m == nil {
+			break
+		}
+		var id string
+		_ = m.VisitStoredFields(func(f string, v []byte) bool {
+			if f == "_id" {
+				id = string(v)
+			}
+			return true
+		})
+		var idx int
+		fmt.Sscanf(id, "d%05d", &idx)
+		numbers = append(numbers, m.Number)
+		keys = append(keys, []topnRefKey{{true, []byte(kws[idx])}})
+	}
+	rr := topnRank(order, keys)
+	numberOf := func(i int) uint64 { return numbers[i] }
+	for _, p := range topnDeepWindows(rng, cap, len(numbers)) {
+		req := bluge.NewTopNSearch(p[0], bluge.NewMatchAllQuery()).SortByCustom(topnBuildOrder(order, nil, topnFieldName)).SetFrom(p[1])
+		it, err := rd.Search(context.Background(), req)
+		if err != nil {
+			return err
+		}
+		res, err := topnDrain(it)
+		if err != nil {
+			return err
+		}
+		w.Count("deep:e2e-queries", 1)
+		w.OracleEval(1)
+		want := topnSliceOf(rr.order, p[1], p[0])
+		if !topnSameNumbers(res, want, numberOf) {
+			w.OracleFail("C09-topn-slice", "deep TopNSearch page is not the [from, from+n) slice of the ranking of AllMatches",
+				map[string]interface{}{"order": topnOrderString(order), "docs": nd, "n": p[0], "from": p[1], "returned": len(res), "wanted": len(want)})
+		}
+	}
 	return nil
 }
 
